@@ -867,6 +867,15 @@ impl VisitMut for Rw {
                     let recv = (*m.receiver).clone();
                     self.log.push("R21 Option::and_then(closure) -> match".into());
                     Some(parse_quote!(match #recv { Some(#pat) => #body, None => None }))
+                } else if name == "map" && m.args.len() == 1 && matches!(&m.args[0], Expr::Closure(c) if c.inputs.len() == 1)
+                    && matches!(&*m.receiver, Expr::MethodCall(r) if (r.method == "as_mut" || r.method == "as_ref" || r.method == "take") && r.args.is_empty()) {
+                    // R21: Option::map(|x| E) on an as_ref()/as_mut()/take() receiver -> match (its definition)
+                    let c = if let Expr::Closure(c) = &m.args[0] { c.clone() } else { unreachable!() };
+                    let pat = c.inputs[0].clone();
+                    let body = (*c.body).clone();
+                    let recv = (*m.receiver).clone();
+                    self.log.push("R21 Option::map(closure) -> match".into());
+                    Some(parse_quote!(match #recv { Some(#pat) => Some(#body), None => None }))
                 } else if name == "and_then" && m.args.len() == 1
                     && matches!(&m.args[0], Expr::Closure(c) if c.inputs.len() == 1 && (matches!(&c.inputs[0], Pat::Tuple(t) if t.elems.is_empty())
                         || matches!(&*c.body, Expr::Call(k) if matches!(&*k.func, Expr::Path(p) if p.path.is_ident("Ok") || p.path.is_ident("Err"))))) {
